@@ -339,6 +339,29 @@ def run(ctx):
               message=f"bounds stored as {asg.get('_lower')}, {asg.get('_upper')}", how="self._lower = lower; self._upper = upper")
 
     # ------------------------------------------------------------ R16.4 hyperband
+    # successive halving: what is recorded as a trial's rung value takes part in every later trial's competition (sorted, then indexed):
+    # a NaN there is not ordered - `value <= nan` is False - so a strictly best later trial can be pruned. The NaN exit has to come first.
+    ctx.rule("R16.5", "SuccessiveHalvingPruner never records NaN as a rung value: the write of the completed-rung attribute is dominated by the not-NaN edge")
+    shp = p.cls(PR + "_successive_halving.SuccessiveHalvingPruner").methods["prune"]
+    gsh = CFG(shp.node, name=shp.qualname)
+    shdefs = single_defs(shp.node)
+    writes_ = [n for n in gsh.stmt_nodes() for c in n.calls() if isinstance(c.func, ast.Attribute) and c.func.attr == "set_trial_system_attr" and len(c.args) >= 3]
+    ctx.require(writes_, "R16.5: SuccessiveHalvingPruner.prune no longer records the rung value")
+    for wn in writes_:
+        for c in wn.calls():
+            if isinstance(c.func, ast.Attribute) and c.func.attr == "set_trial_system_attr" and len(c.args) >= 3:
+                vname = norm(c.args[2])
+
+                def _nan(e, vname=vname):
+                    if isinstance(e, ast.Call) and (dotted(e.func) or "") in ("math.isnan", "np.isnan", "numpy.isnan") and e.args and norm(e.args[0]) == vname:
+                        return True
+                    return None
+                ok_edges = [(t, k, m) for t in gsh.stmt_nodes() if t.kind == "test" for k, m in t.succ if edges_where(t.expr, _nan).get(k) is False]
+                ctx.check(bool(ok_edges) and gsh.dominated_by(wn, [], ok_edges), "R16.5", shp.short, "rung-value-recorded-is-not-nan",
+                          message=f"SuccessiveHalvingPruner.prune stores `{vname}` as the trial's completed-rung value on a path that has not excluded NaN: later trials of "
+                                  f"the rung sort that NaN into their competing values and compare against it (`value <= nan` is False), so a trial that is strictly better "
+                                  f"than every reported value can be pruned",
+                          how="the set_trial_system_attr(<rung key>, value) call is dominated by the False edge of math.isnan(value)", where=where(shp, c))
     ctx.rule("R16.4", "Hyperband: False while uninitialised, delegates to SuccessiveHalving built from its parameters; "
              "bracket id depends only on study name, trial number and configuration")
     hcls = p.cls(DELEGATING[0])
